@@ -97,8 +97,58 @@ def graph_configs():
             yield "graph:%s:%s" % (a, "".join("%d%d" % e for e in edges)), cfg
 
 
+# A relative target that exists under several same-named roots: the file under the FIRST listed root is the target (from_first_in);
+# the same-named file under another root is outside the closure, however the list of roots is ordered behind it or padded with duplicates
+TWIN_ROOT_LISTS = [["p", "q"], ["p", "q", "p"], ["p", "p", "q"], ["p", "q", "q"], ["p", "q", "p", "q"], ["q", "p"], ["q", "p", "q"], ["q", "q", "p"], ["q", "p", "p"]]
+
+
+def check_twin_roots(case, R: engine.Acc):
+    import os
+    from pathlib import Path
+
+    roots = case["roots"]
+    first, other = roots[0], ("q" if roots[0] == "p" else "p")
+    base = ws.fresh()
+    old = os.getcwd()
+    try:
+        good = "uint8 from_%s\n@print 'target'\n@sealed\n" % first
+        ws.write_tree(base, {"%s/vendor/T.1.0.dsdl" % first: good, "%s/vendor/T.1.0.dsdl" % other: "uint16 other\n@sealed\n", "%s/vendor/U.1.0.dsdl" % other: "@sealed\n", "cwd/keep": ""})
+        os.chdir(base / "cwd")
+
+        def call():
+            prints = []
+            del _opened[:]
+            try:
+                with engine.deadline(20):
+                    d, t = pydsdl.read_files([Path("vendor/T.1.0.dsdl")], [base / r / "vendor" for r in roots], [], lambda p, l, x: prints.append([api.rel(base, p), l, x]))
+                out = {"ok": [[dump.composite(x) for x in d], [dump.composite(x) for x in t]], "paths": [api.rel(base, x.source_file_path) for x in d]}
+            except pydsdl.Error as ex:
+                out = {"error": [type(ex).__name__, api.rel(base, ex.path), ex.line]}
+            return out, prints, [api.rel(base, p) for p in _opened]
+
+        ref = call()
+        victim = "%s/vendor/T.1.0.dsdl" % other
+        if "ok" in ref[0] and ref[0]["paths"] != ["%s/vendor/T.1.0.dsdl" % first]:
+            R.violation("outside-definition-read-as-target", "the target is the file under the first listed root; its same-named sibling under another root is not referenced by anything", case, observed=ref[0]["paths"], expected=["%s/vendor/T.1.0.dsdl" % first])
+            return
+        for ri in (2, 20, 22, 7, 24):
+            with open(base / victim, "w", encoding="utf-8") as f:
+                f.write(REPLACEMENTS[ri])
+            R.case(["twin-roots", roots, ri], nontrivial=True, sample=False)
+            got = call()
+            if got[0] != ref[0] or got[1] != ref[1] or victim in got[2]:
+                R.outcome("influenced")
+                R.violation("outside-definition-changes-result:twin-roots", "replacing a definition outside the closure leaves the returned types (or the raised error) unchanged", {**case, "replacement": ri}, observed=[got[0] if "error" in got[0] else "different model", got[1], got[2]], expected=[ref[0] if "error" in ref[0] else "reference model", ref[1]])
+                return
+            R.outcome("unaffected")
+    finally:
+        os.chdir(old)
+        ws.remove(base)
+
+
 def plan(tier):
     shards = [{"kind": "config", "config": name} for name in all_configs()]
+    shards.append({"kind": "twin-roots"})
     shards += [{"kind": "graphs", "part": p, "parts": 16} for p in range(16)]
     shards += [{"kind": "history", "part": p, "parts": 16} for p in range(16)]
     shards += H.plan_shards(['faults', 'minor-versions'])
@@ -161,6 +211,10 @@ def outside(cfg, op, tsel):
 def cases(shard, tier):
     if shard.get("kind") == "call-histories":
         yield from H.cases_of(shard)
+        return
+    if shard["kind"] == "twin-roots":
+        for r in TWIN_ROOT_LISTS:
+            yield {"kind": "twin-roots", "roots": r}
         return
     if shard["kind"] == "history":
         for k, c in enumerate(history_cases()):
@@ -286,6 +340,8 @@ def check_case(case, R: engine.Acc):
         return H.check_history(case["label"], R, H.project_full, 'outcome-depends-on-earlier-calls', 'the outcome depends only on the targets of THIS call and what they reference')
     if case.get("kind") == "history":
         return check_history(case, R)
+    if case.get("kind") == "twin-roots":
+        return check_twin_roots(case, R)
     cfg = get_config(case["config"])
     defs = cfg["defs"]
     victim = defs[case["outside"]]
